@@ -205,7 +205,10 @@ def indexation(obj, key):
     :returnType: any
     """
     settings = yaqlization.get_yaqlization_settings(obj)
-    _validate_name(key, settings, KeyError)
+    if isinstance(key, str):
+        # the name policy applies to names; other keys (numbers, host
+        # objects) are not inspected
+        _validate_name(key, settings, KeyError)
     res = obj[key]
     _auto_yaqlize(res, settings)
     return res
